@@ -66,6 +66,14 @@ fn programs(entry: Entry) -> Vec<(&'static str, Vec<Op>)> {
     // an interval's first tick comes one full period after it was requested - not at once: a one-shot timer with a
     // fraction of that delay, requested right after it, is delivered first (20 ms against 300 ms: far apart even on a loaded machine)
     v.push(("first_tick_order", vec![Op::Call { slot: 0, script: vec![PStep::Interval(300), PStep::DelayedSend(20)], cancel: None }, Op::AwaitLog { tag: 1, what: 1, count: 2 }, call(0), Op::Stop { slot: 0 }, Op::Await { slot: 0, by_ref: false }]));
+    // timers die with the actor on every runtime: a job due in 300 ms does not run when its actor stopped at once,
+    // and after a restart the previous incarnation's pending job does not run either
+    if matches!(entry, Entry::Spawn | Entry::BuilderOwning | Entry::SpawnDefault) {
+        v.push(("pending_exec_dies_with_actor", vec![Op::Call { slot: 0, script: vec![PStep::DelayedExec(300)], cancel: None }, Op::Stop { slot: 0 }, Op::Await { slot: 0, by_ref: true }, Op::Sleep(500)]));
+    }
+    if matches!(entry, Entry::Builder) {
+        v.push(("pending_exec_dies_with_incarnation", vec![Op::Call { slot: 0, script: vec![PStep::DelayedExec(300)], cancel: None }, Op::Restart { slot: 0 }, Op::Ping { slot: 0, cancel: None }, Op::Sleep(500), call(0), Op::Stop { slot: 0 }, Op::Await { slot: 0, by_ref: false }]));
+    }
     v.push(("weak_handles", vec![Op::Downgrade { slot: 0 }, Op::ToWeakSender { slot: 0 }, Op::ToCaller { slot: 0 }, Op::Upgrade { slot: 2 }, Op::Upgrade { slot: 3 }, Op::Call { slot: 4, script: vec![], cancel: None }, Op::Stop { slot: 2 }, Op::Await { slot: 0, by_ref: false }, Op::Upgrade { slot: 2 }]));
     if !stream {
         v.push(("restart_then_call", vec![call(0), Op::Restart { slot: 0 }, call(0), Op::Send { slot: 0, script: vec![PStep::CtxRestart], cancel: None }, Op::Ping { slot: 0, cancel: None }, call(0), Op::Stop { slot: 0 }, Op::Await { slot: 0, by_ref: false }]));
@@ -295,6 +303,9 @@ fn record(evs: &[log::Ev], watchdog: bool) -> String {
         }
     }
     let first_order = if first_order.len() >= 2 && first_order.contains(&"delayed_send") && first_order.contains(&"interval") { format!(", \"first_deliveries\": {:?}", first_order) } else { String::new() };
+    // how many delayed_exec jobs ran at all (a job whose actor stopped long before its delay elapsed never runs)
+    let execs = evs.iter().filter(|e| matches!(&e.k, K::Exec { .. })).count();
+    let first_order = format!("{first_order}, \"execs\": {execs}");
     let cbs: Vec<String> = tags.iter().map(|(t, (s, tick))| format!("tag{t}: {}{}", s.trim_end(), if *tick { " +ticks" } else { "" })).collect();
     format!("{{\"ops\": [{}], \"callbacks\": [{}]{first_order}, \"watchdog\": {watchdog}}}", ops.iter().map(|o| jstr(o)).collect::<Vec<_>>().join(", "), cbs.iter().map(|o| jstr(o)).collect::<Vec<_>>().join(", "))
 }
